@@ -23,7 +23,7 @@ RULE = (
 ASSUMPTIONS = ["output directories exist", "clean backend (no tracked jobs), sources dated in the past"]
 
 
-QUICK_BUDGET = {"cases": 1440, "deadline_s": 170, "case_timeout_s": 60, "floors": {"touch_runs": 504, "edges_ordered": 1554, "status_rows": 1749, "contents_compared": 6000, "fresh_sources": 170}}
+QUICK_BUDGET = {"cases": 1440, "deadline_s": 170, "case_timeout_s": 60, "floors": {"touch_runs": 504, "edges_ordered": 1554, "status_rows": 1749, "contents_compared": 6000, "fresh_sources": 170, "wide_cases": 1}}
 THOROUGH_FACTOR = 17  # thorough = the same workload with 17x the cases (floors scale along)
 
 
@@ -33,7 +33,21 @@ def budget(tier):
     return scaled_budget(QUICK_BUDGET, tier, THOROUGH_FACTOR, noscale=())
 
 
+def wide_case(rng):
+    """a wide workflow whose outputs are all missing, touched by a gwf process with a modest descriptor limit"""
+    n = rng.randint(260, 340)
+    targets = [{"name": "w%03d" % i, "ins": ["src0.txt"], "outs": ["wo%03d_%d.dat" % (i, k) for k in range(rng.randint(1, 2))], "spec": "echo w%d\n" % i} for i in range(n)]
+    ticks = {"src0.txt": 1}
+    for t in targets:
+        for o in t["outs"]:
+            ticks[o] = None
+    names = [t["name"] for t in targets]
+    return {"links": {}, "leftover_tmp": False, "dag": {"targets": targets, "sources": ["src0.txt"], "shape": "wide"}, "ticks": ticks, "patterns": [], "hashing": rng.random() < 0.5, "records": {n_: "never" for n_ in names}, "fresh_source": None, "nofile": 64, "timeout_s": 300}
+
+
 def gen_case(rng, idx, tier):
+    if idx % 701 == 11:
+        return wide_case(rng)
     dag = gen.gen_dag(rng, max_targets=8, p_noout=0.1, shapes=rng.choice(["random", "random", "diamond", "forest", "fan", "chain"]))
     ticks = {s: rng.choice([0, 1, 2]) for s in dag["sources"]}
     for t in dag["targets"]:
@@ -118,7 +132,9 @@ def run_case(case):
         before = gen.snapshot(root)
         SimCluster(proj.simdir, "slurm")
         env = cli.env_for(proj.simdir, ("slurm",))
-        r = cli.gwf(root, ["touch"] + case["patterns"], env, utime_delay=0.005)
+        if case.get("nofile"):
+            res.mon("wide_cases")
+        r = cli.gwf(root, ["touch"] + case["patterns"], env, utime_delay=0.0 if case.get("nofile") else 0.005, nofile=case.get("nofile"), timeout=240 if case.get("nofile") else 60)
         res.mon("touch_runs")
         ctx = {"patterns": case["patterns"], "cone": sorted(c), "deps": {k: sorted(v) for k, v in deps.items()}}
         if r.rc != 0:
